@@ -134,8 +134,53 @@ def oracle_stat(case):
     return Res(viol, True, ["stat:" + case["mode"]], {"stat_max_abs_ratio_minus_1": abs(ratio - 1.0)})
 
 
+@st.composite
+def cancel_case(draw, tier):
+    return {"L": draw(st.integers(8, 400)), "reps": draw(st.sampled_from([2, 2, 4, 6])), "seed": draw(st.integers(0, 2 ** 31 - 1)),
+            "order": draw(st.sampled_from([-1, 0, 1, 2])), "backend": draw(st.sampled_from(["numba", "numpy"])),
+            "fbin": draw(st.floats(0.02, 0.48)), "win": draw(st.sampled_from(["hann", "kaiser"])), "how": draw(st.sampled_from(["single", "full"]))}
+
+
+def oracle_cancel(case):
+    """x repeats one waveform in every block of L samples, y carries it with alternating sign ("chopped"): with
+    olap=0 and segment length L the per-segment products are +Z, -Z, +Z, ... - their mean is exactly 0 while their
+    scatter is |Z|^2."""
+    from speckit import SpectrumAnalyzer
+    L, reps = case["L"], case["reps"]
+    rng = np.random.default_rng(case["seed"])
+    blk = rng.standard_normal(L) + 0.3
+    x = np.tile(blk, reps)
+    y = np.concatenate([blk * (1.0 if k % 2 == 0 else -1.0) for k in range(reps)])
+    N = L * reps
+    an = SpectrumAnalyzer(np.vstack([x, y]), 1.0, olap=0.0, win=case["win"], psll=100, order=case["order"], backend=case["backend"],
+                          Lmin=L, Jdes=20, Kdes=2, scheduler="ltf")
+    res = an.compute_single_bin(case["fbin"], L=L) if case["how"] == "single" else an.compute()
+    wref = gens.resolve_window(case["win"])[1]
+    viol, hit = [], False
+    for j in range(len(res.f)):
+        Lj = int(res.L[j])
+        D = np.asarray(res.D[j], dtype=np.int64)
+        K = len(D)
+        if Lj != L or K < 2 or not np.array_equal(D, np.arange(K) * L):
+            continue
+        om = 2 * np.pi * float(res.f[j])
+        w = wref(Lj, 100)
+        ref = refs.dft_stats(x, y, D, Lj, w, om, case["order"])
+        Sx = tol.seg_scale(x, D, Lj, w, case["order"])
+        e2 = tol.budget2(Lj, om, Sx, K)
+        bm2 = tol.budget_m2(e2, ref["M2"], tol.budget4(Lj, om, Sx, Sx, K))
+        if K % 2 == 0 and abs(ref["XY"]) <= 1e3 * e2:
+            hit = True
+        if not abs(float(res.XY_emp_var[j]) - ref["M2"] / K) <= bm2 / K:
+            viol.append(V("emp_var_ne_population_variance_over_K", bin=int(j), K=K, got=float(res.XY_emp_var[j]), expected=ref["M2"] / K,
+                          budget=bm2 / K, L=Lj, order=case["order"], backend=case["backend"], mode="csd", mean_XY=abs(ref["XY"])))
+            break
+    return Res(viol, hit, ["cancel:%s,o=%d" % (case["backend"], case["order"])] + (["cancel:mean-exactly-zero"] if hit else []))
+
+
 PARTS = [
+    Part("cancelling", cancel_case, oracle_cancel, n_quick=40, n_thorough=400),
     Part("analyses", case_, oracle, n_quick=200, n_thorough=2000),
     GridPart("gaussian", stat_cases, oracle_stat),
 ]
-QUOTAS = {"tiny-relative-scatter": {"quick": 4, "thorough": 100}, "part:analyses": {"quick": 150, "thorough": 3000}, "part:gaussian": {"quick": 12, "thorough": 48}}
+QUOTAS = {"cancel:mean-exactly-zero": {"quick": 40, "thorough": 600}, "tiny-relative-scatter": {"quick": 4, "thorough": 100}, "part:analyses": {"quick": 150, "thorough": 3000}, "part:gaussian": {"quick": 12, "thorough": 48}}
